@@ -9,8 +9,7 @@ CHECKS = {}
 RAND_RULE = ("scenario = (definition, mode, reader, start offset, input); the bounded universe U_small is enumerated and seeded "
              "random definitions are added (depth<=2, <=5 fields, every scalar kind, bit-fields on 10 storage types, arrays in the "
              "4 length forms, nested/anonymous structs and unions, pointers, constants); ")
-DOMAIN = ["aligned structures start at multiples of 16 (>= every alignment)",
-          "float numeric interpretation and UTF-16 encoding of expected strings are done by the projection (struct / str), not by TLA+",
+DOMAIN = ["float numeric interpretation and UTF-16 encoding of expected strings are done by the projection (struct / str), not by TLA+",
           "NaN floats and non-minimal LEB128 are outside the domain (spec flags, counted in domain_exclusions)"]
 
 
@@ -97,7 +96,7 @@ def c09_extra(rep, rnd, first_id):
 
 CHECKS["C09"] = CodecCheck(
     "C09", {"value", "pos", "sizes", "status", "forms", "load"},
-    rule=RAND_RULE + "start offsets 0..17 (multiples of 16 when aligned) with random prefix bytes and trailing bytes; extra "
+    rule=RAND_RULE + "start offsets 0..17 (also for aligned structures: alignment is relative to the structure's first byte) with random prefix bytes and trailing bytes; extra "
          "families: every call form x input kind on the same bytes (T(x), T.read, T.reads, cs.read x bytes, bytearray, "
          "memoryview, BytesIO, minimal file-like) and histories of consecutive parses on one stream; non-trivial = parse ok",
     quick_n=900, thorough_n=25000, extra=c09_extra, assumptions=DOMAIN)
